@@ -43,7 +43,7 @@ use barter_data::{
 use barter_execution::{
     AccountEvent, AccountEventKind, AccountSnapshot, InstrumentAccountSnapshot,
     balance::{AssetBalance, Balance},
-    error::{ConnectivityError, OrderError},
+    error::{ApiError, ConnectivityError, OrderError},
     order::{
         Order, OrderKey, OrderKind, TimeInForce,
         id::{ClientOrderId, OrderId, StrategyId},
@@ -416,7 +416,14 @@ impl Ev {
                 account(lay.inst_ex[*i], AccountEventKind::OrderSnapshot(Snapshot(snapshot_order(lay, *i, cid, OrderState::Inactive(state)))))
             }
             Ev::CancelResp { i, cid, ok, t: ts } => {
-                let state = if *ok { Ok(Cancelled { id: OrderId::new(order_id_of(cid)), time_exchange: t(*ts) }) } else { Err(OrderError::Connectivity(ConnectivityError::Timeout)) };
+                // (the kind of failure varies with the timestamp: whatever the error says, a failed cancel leaves the order as it was last confirmed)
+                let err = || match ts.rem_euclid(4) {
+                    0 => OrderError::Connectivity(ConnectivityError::Timeout),
+                    1 => OrderError::Rejected(ApiError::OrderAlreadyCancelled),
+                    2 => OrderError::Rejected(ApiError::OrderAlreadyFullyFilled),
+                    _ => OrderError::Rejected(ApiError::RateLimit),
+                };
+                let state = if *ok { Ok(Cancelled { id: OrderId::new(order_id_of(cid)), time_exchange: t(*ts) }) } else { Err(err()) };
                 account(lay.inst_ex[*i], AccountEventKind::OrderCancelled(barter_execution::order::OrderEvent { key: key(lay.inst_ex[*i], *i, cid), state }))
             }
             Ev::Fill { i, buy, px, qty, t: ts, id } => account(lay.inst_ex[*i], AccountEventKind::Trade(Trade {
